@@ -143,7 +143,7 @@ structure Entry (K : Type) where
 def entryNormQ (sqrt : K → K) (useInf : Bool) (perr w quat : List K) : Entry K :=
   let p := normW sqrt useInf (scale perr w)
   let q := normW sqrt useInf quat
-  if p.1 ≤ q.1 then ⟨p.1, p.2, p.1, q.1⟩ else ⟨q.1, (perr.length : Int) + q.2, p.1, q.1⟩
+  if q.1 ≤ p.1 then ⟨p.1, p.2, p.1, q.1⟩ else ⟨q.1, (perr.length : Int) + q.2, p.1, q.1⟩
 
 /-- what the numerical part of projectQ produced (arbitrary): constraint errors on entry and after every step -/
 structure OracleQ (K : Type) where
@@ -356,7 +356,7 @@ def pack (free : List Nat) (all : List K) (dflt : K) : List K := free.map (fun i
 
 /-- `unpackedFreeQ[freeQX[i]] = packedFreeQ[i]`; other slots keep what `base` holds -/
 def unpack (free : List Nat) (packed : List K) (base : List K) : List K :=
-  (free.zip packed).foldl (fun b (ip : Nat × K) => b.set ip.1 ip.2) base
+  (free.zip packed).foldl (fun b (ip : Nat × K) => b.set (ip.1 + 1) ip.2) base
 
 end Pack
 
